@@ -8,6 +8,7 @@ import Ivy.Mon.C07
 import Ivy.Mon.C08
 import Ivy.L1.Progress
 import Ivy.Drv.Util
+import Ivy.Mon.TmoContract
 /-! T-replay driver for the loop: reads the log of /verif/harness/loop_h.c, feeds the environment
 records to the L1 machine and compares the library records with the machine's outputs. -/
 namespace Ivy.Drv.Loop
@@ -376,7 +377,9 @@ def toEvs (s : S) (ws : List String) : S × List Ev :=
 def verdicts (evs : List Ev) : List (String × Option String) :=
   [("C01", Ivy.Mon.C01.verdict evs), ("C02", Ivy.Mon.C02.verdict evs), ("C03", Ivy.Mon.C03.verdict evs),
    ("C04", Ivy.Mon.C04.verdict evs), ("C06", Ivy.Mon.C06.verdict evs), ("C07", Ivy.Mon.C07.verdict evs),
-   ("C07spin", Ivy.Mon.C07.spin4Verdict evs), ("C07tmo", Ivy.Mon.C07.tmoVerdict evs), ("C07idle", Ivy.L1.Progress.idleVerdict evs), ("C08", Ivy.Mon.C08.verdict evs)]
+   ("C07spin", Ivy.Mon.C07.spin4Verdict evs), ("C07tmo", Ivy.Mon.C07.tmoCapVerdict evs), ("C07idle", Ivy.L1.Progress.idleVerdict evs), ("C08", Ivy.Mon.C08.verdict evs),
+   -- not a property monitor: the hypothesis of `Ivy.Props.C07tmo.tmo_cap_sound` evaluated on the log (the harness' kernel must keep it)
+   ("ENVtmo", if Ivy.L1.ProofsC07tmo.tmoContract evs then none else some "the clock did not advance by the timeout of a wait that timed out (timeout contract of Ivy.Props.C07tmo)")]
 
 def stepAll (s : S) (ws : List String) : S × List String :=
   -- `cycle` tore the loop down and initialised it again: the theorems (and so the monitors) are about ONE execution from the
